@@ -315,6 +315,8 @@ where
 
         let mut data = &mut self.data;
         let mut pos = 0;
+        // Slot of the current last item and the offset to seal it with, written only on success.
+        let mut seal = None;
 
         loop {
             let offset = *L::from_bytes(data)?;
@@ -325,13 +327,13 @@ where
                 let payload_size = ceil_mul(T::from_bytes(payload)?.size(), Self::ALIGN);
                 let last_offset = offset_size + payload_size;
                 pos += last_offset;
-                L::from_usize(last_offset)
+                let last_offset = L::from_usize(last_offset)
                     .and_then(|o| if o < L::max_value() { Some(o) } else { None })
                     .ok_or(Error {
                         kind: ErrorKind::InsufficientSize,
                         pos,
-                    })?
-                    .emplace(offset_slot)?;
+                    })?;
+                seal = Some((offset_slot, last_offset));
                 (_, data) = payload.split_at_mut(payload_size);
                 break;
             }
@@ -348,8 +350,13 @@ where
         }
 
         let (offset_slot, payload) = data.split_at_mut(offset_size);
+        let item = emplacer.emplace(payload)?;
+        // The item is in place: only now link it into the chain.
         L::max_value().emplace(offset_slot)?;
-        emplacer.emplace(payload)
+        if let Some((last_offset_slot, last_offset)) = seal {
+            last_offset.emplace(last_offset_slot)?;
+        }
+        Ok(item)
     }
     pub fn push_default(&mut self) -> Result<&mut T, Error>
     where
